@@ -771,7 +771,7 @@ def build(interp_globals):
                 refs[r].set(1 if t else 0)
                 r += 1
             elif c == "U":
-                if not isinstance(item, str):
+                if not issubclass(pytype_of(item), str):
                     st.set_err(TypeError, TypeError("argument must be str"))
                     return 0
                 refs[r].set(item)
